@@ -1391,7 +1391,8 @@ class Req:
         ok = True
         for nm in ("hss_extract_aux_data", "hss_save_aux_data"):
             f = self.aux_fn(nm)
-            callers = {c for c, b, k in self.F.callers_of(f.path) if k == "call"}
+            import re as _re
+            callers = {_re.sub(r"(::\{closure#\d+\})+$", "", c) for c, b, k in self.F.callers_of(f.path) if k == "call"}   # a closure of the routine counts as the routine
             ok = ok and callers == {ge.path}
         # recursive calls use 2*index and 2*index+1; external callers pass 1 or a sibling index computed from 2^h + leaf
         ex = expr.Expr(self.F, ge)
